@@ -13,10 +13,11 @@ use std::collections::{BTreeMap, BTreeSet};
 
 pub struct C20;
 
-const CHORD_KEYS: [&str; 6] = ["a", "b", "c", "d", "e", "f"];
+/// chord keys; the last one is punctuation for smart-space
+const CHORD_KEYS: [&str; 7] = ["a", "b", "c", "d", "e", "f", "."];
 const OUT_CHARS: [char; 14] = ['a', 'b', 'g', 'h', 'i', 't', 'A', 'G', 'T', ' ', 'o', 'n', 'x', 'B'];
 /// keys for the typing that follows: never part of a chord
-const TAIL_KEYS: [&str; 5] = ["x", "y", "z", ".", ","];
+const TAIL_KEYS: [&str; 5] = ["x", "y", "z", ";", ","];
 
 #[derive(Clone, Debug, PartialEq, Eq, Hash)]
 pub struct ZEntry {
@@ -35,6 +36,8 @@ pub struct ZCase {
     pub orders: Vec<u16>,
     pub gap: u8,
     pub shift: bool,
+    /// a character is typed first (and zippychord left to re-enable): erasing too much shows
+    pub prefix: bool,
     /// indexes into TAIL_KEYS typed afterwards
     pub tail: Vec<u8>,
     /// 0: press the path of entry `which`; 1: only sequential single-key typing over the chord keys
@@ -42,7 +45,7 @@ pub struct ZCase {
 }
 
 fn mask_keys(m: u8) -> Vec<usize> {
-    (0..6).filter(|i| m & (1 << i) != 0).collect()
+    (0..7).filter(|i| m & (1 << i) != 0).collect()
 }
 fn chord_text(m: u8) -> String {
     mask_keys(m).iter().map(|i| CHORD_KEYS[*i]).collect()
@@ -60,7 +63,7 @@ fn file_text(c: &ZCase) -> String {
 }
 fn cfg_text(c: &ZCase) -> String {
     format!(
-        "(defcfg log-layer-changes no)\n(defsrc a b c d e f x y z . , lsft spc)\n(deflayer l0 a b c d e f x y z . , lsft spc)\n(defzippy zippy.txt on-first-press-chord-deadline 500 idle-reactivate-time 500 smart-space {})\n",
+        "(defcfg log-layer-changes no)\n(defsrc a b c d e f x y z . , ; lsft spc)\n(deflayer l0 a b c d e f x y z . , ; lsft spc)\n(defzippy zippy.txt on-first-press-chord-deadline 500 idle-reactivate-time 500 smart-space {})\n",
         ["none", "add-space-only", "full"][c.smart_space as usize % 3]
     )
 }
@@ -69,7 +72,7 @@ impl Case for ZCase {
     fn to_json(&self) -> Value {
         json!({"config": cfg_text(self), "zippy_file": file_text(self),
             "entries": self.entries.iter().map(|e| json!([e.chords, e.out])).collect::<Vec<_>>(),
-            "smart_space": self.smart_space, "which": self.which, "orders": self.orders, "gap": self.gap, "shift": self.shift, "tail": self.tail, "scenario": self.scenario})
+            "smart_space": self.smart_space, "which": self.which, "orders": self.orders, "gap": self.gap, "shift": self.shift, "prefix": self.prefix, "tail": self.tail, "scenario": self.scenario})
     }
     fn from_json(v: &Value) -> Option<Self> {
         Some(ZCase {
@@ -88,6 +91,7 @@ impl Case for ZCase {
             orders: v["orders"].as_array()?.iter().filter_map(|x| x.as_u64().map(|y| y as u16)).collect(),
             gap: v["gap"].as_u64()? as u8,
             shift: v["shift"].as_bool()?,
+            prefix: v["prefix"].as_bool().unwrap_or(false),
             tail: v["tail"].as_array()?.iter().filter_map(|x| x.as_u64().map(|y| y as u8)).collect(),
             scenario: v["scenario"].as_u64()? as u8,
         })
@@ -128,6 +132,7 @@ fn text_of(outs: &[crate::sim::Out]) -> (String, bool) {
     }
     table.insert(code_of("."), '.');
     table.insert(code_of(","), ',');
+    table.insert(code_of(";"), ';');
     for o in outs {
         match o.ev {
             OutEv::Down(k) if sh.contains(&k) => {
@@ -200,6 +205,14 @@ fn judge_case(c: &ZCase) -> Verdict {
         v.classes.push("non-chord-typing");
     } else {
         // the path of the chosen entry
+        if c.prefix {
+            sim.press(code_of("x"));
+            sim.tick_n(5);
+            sim.release(code_of("x"));
+            // zippychord re-enables after idle-reactivate-time
+            sim.tick_n(520);
+            typed_desc.push("tap:x".into());
+        }
         if c.shift {
             sim.press(lsft);
             sim.tick_n(5);
@@ -235,6 +248,10 @@ fn judge_case(c: &ZCase) -> Verdict {
             sim.tick_n(5);
         }
         let mut exp = if c.shift { capitalize_first(&entry.out) } else { entry.out.clone() };
+        if c.prefix {
+            exp = format!("x{exp}");
+            v.classes.push("text-before-the-chord");
+        }
         let smart = c.smart_space % 3 != 0 && !entry.out.is_empty() && !entry.out.ends_with(' ');
         if smart {
             exp.push(' ');
@@ -244,7 +261,7 @@ fn judge_case(c: &ZCase) -> Verdict {
             let name = TAIL_KEYS[*t as usize % TAIL_KEYS.len()];
             let ch = name.chars().next().unwrap();
             // smart-space full: punctuation right after the activation removes the added space
-            if i == 0 && smart && c.smart_space % 3 == 2 && matches!(ch, '.' | ',') {
+            if i == 0 && smart && c.smart_space % 3 == 2 && matches!(ch, ';' | ',') {
                 exp.pop();
             }
             sim.tick_n(if i == 0 { 15 } else { 8 });
@@ -328,7 +345,7 @@ impl TypedProp for C20 {
     fn info(&self) -> PropInfo {
         PropInfo {
             level: "exploration",
-            rule: "dictionaries: 1-5 entries over chord keys a-f: a first chord of 2-3 keys, 0-2 follow-up chords of 1-2 keys, outputs of 1-6 characters (lower / upper case letters, space); a third of the entries extend the previous entry's first chord by one key, half of those also extend its output; smart-space none / add-space-only / full; deadline and idle-reactivate 500 ms. History: optionally shift held; every chord of the chosen entry's path pressed in a generated order with gaps of 1-8 ms, released, 10 ms pause; shift released; then 0-3 taps of keys that are in no chord (x y z . ,). A separate scenario types single chord keys one after the other (never two at once). Oracle: the OS output is replayed into a text buffer (characters with the shift state, space, backspace); the text left must be the entry's expansion (first character capitalised when shift is held), plus the smart space where configured (removed again by punctuation in full mode), plus the characters typed afterwards; sequential typing must come out unchanged; a held shift must be down again after each activation; nothing is left down. Non-trivial: the dictionary has >= 2 entries or shift is held. Distinct: hash of the case.".into(),
+            rule: "dictionaries: 1-5 entries over chord keys a-f and `.`: a first chord of 2-3 keys, 0-2 follow-up chords of 1-2 keys, outputs of 1-6 characters (lower / upper case letters, space); a third of the entries extend the previous entry's first chord by one key, half of those also extend its output; smart-space none / add-space-only / full; deadline and idle-reactivate 500 ms. History: mostly a character typed first and zippychord left to re-enable (erasing too much shows); optionally shift held; every chord of the chosen entry's path pressed in a generated order with gaps of 1-8 ms, released, 10 ms pause; shift released; then 0-3 taps of keys that are in no chord (x y z ; ,). A separate scenario types single chord keys one after the other (never two at once). Oracle: the OS output is replayed into a text buffer (characters with the shift state, space, backspace); the text left must be the entry's expansion (first character capitalised when shift is held), plus the smart space where configured (removed again by punctuation in full mode), plus the characters typed afterwards; sequential typing must come out unchanged; a held shift must be down again after each activation; nothing is left down. Non-trivial: the dictionary has >= 2 entries or shift is held. Distinct: hash of the case.".into(),
             assumptions: vec!["a chord's own line precedes the lines that follow it up (the file format rejects the other order)".into(), "with shift held the first character of the expansion is capitalised (documented behaviour)".into()],
             extra: BTreeMap::new(),
         }
@@ -352,7 +369,7 @@ impl TypedProp for C20 {
         // (chords of the path, output, derive the first chord from the previous entry's by
         // adding a key)
         let entry = (
-            prop_oneof![6 => prop::collection::vec(1u8..64, 1..=1), 3 => prop::collection::vec(1u8..64, 2..=2), 1 => prop::collection::vec(1u8..64, 3..=3)],
+            prop_oneof![6 => prop::collection::vec(1u8..128, 1..=1), 3 => prop::collection::vec(1u8..128, 2..=2), 1 => prop::collection::vec(1u8..128, 3..=3)],
             prop::collection::vec(0usize..OUT_CHARS.len(), 1..7),
             prop::bool::weighted(0.3),
         );
@@ -363,10 +380,11 @@ impl TypedProp for C20 {
             prop::collection::vec(any::<u16>(), 3..=3),
             0u8..8,
             any::<bool>(),
+            prop::bool::weighted(0.7),
             prop::collection::vec(0u8..5, 0..4),
             prop::bool::weighted(0.15),
         )
-            .prop_map(|(raw, smart_space, which, orders, gap, shift, tail, non_chord)| {
+            .prop_map(|(raw, smart_space, which, orders, gap, shift, prefix, tail, non_chord)| {
                 let mut entries: Vec<ZEntry> = vec![];
                 for (chords, outs, extend) in raw {
                     let mut chords = chords;
@@ -376,7 +394,7 @@ impl TypedProp for C20 {
                         if let Some(prev) = entries.last() {
                             let base = prev.chords[0];
                             if base.count_ones() == 2 {
-                                let extra = (0..6).map(|i| 1u8 << i).find(|b| base & b == 0 && chords[0] & b != 0).unwrap_or_else(|| (0..6).map(|i| 1u8 << i).find(|b| base & b == 0).unwrap());
+                                let extra = (0..7).rev().map(|i| 1u8 << i).find(|b| base & b == 0 && chords[0] & b != 0).unwrap_or_else(|| (0..7).rev().map(|i| 1u8 << i).find(|b| base & b == 0).unwrap());
                                 chords[0] = base | extra;
                             }
                         }
@@ -421,6 +439,7 @@ impl TypedProp for C20 {
                     orders,
                     gap,
                     shift,
+                    prefix,
                     tail,
                     scenario: if non_chord { 1 } else { 0 },
                 }
